@@ -243,6 +243,14 @@ def table_module(E, depth, steps):
                      n, n, n, n, n, n, n, n, proj, n, n, n, proj))
     src += ("#[derive(Default)] pub struct NotClone(pub u8);\n"
             "fn _default_needs_only_default<X: Default>() {}\nfn _check_default_bound() { _default_needs_only_default::<%sTable<NotClone>>(); }\n" % n)
+    # only `filled` needs Clone values: everything else exists for a value type that is not Clone
+    src += ("fn _non_clone_values() {\n"
+            "    let t: %sTable<NotClone> = %sTable::new(%s);\n"
+            "    let t2: %sTable<NotClone> = %sTable::from_closure(|_k: %s| NotClone(1));\n"
+            "    let _t3: %sTable<u8> = t2.transform(|_k: %s, v: &NotClone| v.0);\n"
+            "    let o: %sTable<Option<NotClone>> = %sTable::from_closure(|_k: %s| None); let _ = o.all();\n"
+            "    let r: %sTable<::core::result::Result<NotClone, u8>> = %sTable::from_closure(|_k: %s| Err(1)); let _ = r.all_ok();\n"
+            "    let _ = t;\n}\n" % (n, n, ", ".join("NotClone(%d)" % k for k in range(len(en))), n, n, n, n, n, n, n, n, n, n, n))
     src += RUN + "    table_drive::<%sTable<u8>>(o, %d, %d, %d, seed);\n" % (n, E["id"], depth, steps)
     # values that are shared handles: default() gives every slot its OWN default, so a change made through one slot's value shows in no other
     src += ("    { use std::rc::Rc; use std::cell::Cell;\n"
